@@ -213,6 +213,7 @@ func discharge(dir string, idx int, smt *SMT, o *Obligation, secs int, all bool)
 	if o.Vacuity {
 		r.File = fileReal
 	}
+	nErr := 0
 	for _, x := range allRes {
 		if x.Status == "unknown" || x.Status == "sat" {
 			r.Status = "unknown"
@@ -220,6 +221,16 @@ func discharge(dir string, idx int, smt *SMT, o *Obligation, secs int, all bool)
 			r.Secs = x.Secs
 			r.Output = x.Output
 		}
+		if x.Status == "error" {
+			nErr++
+			if r.Output == "" {
+				r.Output = x.Output
+			}
+		}
+	}
+	if nErr == len(allRes) && nErr > 0 {
+		// every solver rejected the file: a defect of the generator, not a verdict about the code
+		r.Status = "error"
 	}
 	return r, allRes
 }
